@@ -31,12 +31,14 @@ def run(ctx):
     ctx.rule('R12.1', 'remove_quotes strips a matching quote pair from a set containing " and `; None passes through', floor=2)
     ctx.rule('R12.2', 'name-type agreement between the lexer output and group_identifier / _get_first_name / group_period', floor=8)
     ctx.rule('R12.3', 'whitespace-insensitive lookups in the accessors: skip_ws default, whitespace by containment', floor=2)
+    ctx.rule('R12.6', 'accessor wiring: each accessor starts its name search at the right child (after AS, at the dot, before the dot, from the end)', floor=5)
     ctx.rule('R12.4', 'get_alias handles AS and implicit aliases; name accessors are effect-free', floor=6)
     V = VC.get_vocab(ctx)
     check_remove_quotes(ctx)
     check_name_types(ctx, V)
     check_lookups(ctx)
     check_alias(ctx)
+    check_wiring(ctx)
     from .. import rules_tree as RT2
     ctx.rule('R12.5', 'grouping is total: no size/depth cut-off in the drivers and passes this property relies on', floor=1)
     RT2.check_no_cutoff(ctx, 'R12.5', only={'_group', 'group_period', 'group_as', 'group_aliased', 'group_identifier'})
@@ -261,3 +263,92 @@ def check_alias(ctx):
                 if e.kind in ('list-mut', 'tokens-rebind', 'tree-api') or (e.kind == 'attr-store') or (e.kind == 'construct' and e.attr != 'Token'):
                     bad.append(f'{g.short}: {e.detail}')
         ctx.ob('R12.4', f'effect-free:{m.short}', f'{m.mod.relpath}:{m.node.lineno}', f'{m.short} has no tree effect', not bad, f'{bad[:2]}')
+
+
+def check_wiring(ctx):
+    """which helper each accessor calls, and from where the search starts (index expressions compared as linear forms)"""
+    from ..astutil import lin_diff
+    repo, folder = ctx.repo, ctx.folder
+    P = TT(('Punctuation',))
+    KW = TT(('Keyword',))
+
+    def lookups(f, mval):
+        out = []
+        for n in own_nodes(f.node):
+            if isinstance(n, ast.Assign) and isinstance(n.targets[0], ast.Tuple) and isinstance(n.value, ast.Call) \
+                    and isinstance(n.value.func, ast.Attribute) and n.value.func.attr == 'token_next_by':
+                for k in n.value.keywords:
+                    if k.arg == 'm' and folder.try_eval(k.value, f.mod) == mval:
+                        out.append(n.targets[0].elts[0].id if isinstance(n.targets[0].elts[0], ast.Name) else None)
+        return out
+
+    def first_name_calls(f):
+        return [n for n in own_nodes(f.node) if isinstance(n, ast.Call) and is_attr(n.func, '_get_first_name', 'self')]
+    # get_real_name: search from the dot, real_name=True
+    f = repo.func('sqlparse.sql.NameAliasMixin.get_real_name')
+    dots = lookups(f, (P, '.'))
+    calls = first_name_calls(f)
+    ok = len(dots) == 1 and len(calls) == 1 and calls[0].args and is_name(calls[0].args[0], dots[0]) \
+        and any(k.arg == 'real_name' and isinstance(k.value, ast.Constant) and k.value.value is True for k in calls[0].keywords) \
+        and not any(k.arg in ('reverse', 'keywords') for k in calls[0].keywords)
+    ctx.ob('R12.6', 'get_real_name', f'{f.mod.relpath}:{f.node.lineno}',
+           'get_real_name returns the first name found from the first "." on (or from the start if there is none), asking sub-identifiers for their real name', ok,
+           f'calls {[src(c) for c in calls]}: the qualifier or the alias is returned instead of the object name')
+    # get_alias: AS branch searches from the child after AS, keywords allowed; implicit branch searches from the end
+    f = repo.func('sqlparse.sql.NameAliasMixin.get_alias')
+    ass = lookups(f, (KW, 'AS'))
+    calls = first_name_calls(f)
+    g = Guards(f.node)
+    as_ok = impl_ok = False
+    for c in calls:
+        kws = {k.arg: k.value for k in c.keywords}
+        if c.args and ass and lin_diff(c.args[0], ast.Name(id=ass[0], ctx=ast.Load())) == {'': 1} and 'reverse' not in kws:
+            as_ok = True
+        if not c.args and isinstance(kws.get('reverse'), ast.Constant) and kws['reverse'].value is True:
+            facts = [e for e, p_ in g.facts(c) if e != '|' and p_]
+            impl_ok = any('len(self.tokens) > 2' in e for e in facts) and any(e.endswith('is None') is False for e in facts)
+    ctx.ob('R12.6', 'get_alias:after-AS', f'{f.mod.relpath}:{f.node.lineno}', 'with AS the alias is the first name after the AS keyword (search starts at its index + 1)', as_ok,
+           f'calls {[src(c) for c in calls]}')
+    ctx.ob('R12.6', 'get_alias:implicit-from-end', f'{f.mod.relpath}:{f.node.lineno}',
+           'without AS the alias is the last name of an identifier with more than two children', impl_ok, f'calls {[src(c) for c in calls]}')
+    # get_parent_name: token before the first dot, quotes removed
+    f = repo.func('sqlparse.sql.TokenList.get_parent_name')
+    dots = lookups(f, (P, '.'))
+    prevs = [n for n in own_nodes(f.node) if isinstance(n, ast.Call) and is_attr(n.func, 'token_prev', 'self')]
+    rq = [n for n in own_nodes(f.node) if isinstance(n, ast.Call) and is_name(n.func, 'remove_quotes')]
+    ok = len(dots) == 1 and len(prevs) == 1 and prevs[0].args and is_name(prevs[0].args[0], dots[0]) and len(rq) == 1 \
+        and isinstance(rq[0].args[0], ast.Attribute) and rq[0].args[0].attr == 'value'
+    ctx.ob('R12.6', 'get_parent_name', f'{f.mod.relpath}:{f.node.lineno}', 'get_parent_name is the unquoted value of the token before the first "."', ok,
+           f'{[src(c) for c in prevs + rq]}')
+    # get_name = alias or real name
+    f = repo.func('sqlparse.sql.TokenList.get_name')
+    from ..astutil import enum_paths, sym_path
+    outs = set()
+    for p_ in enum_paths(f.node.body):
+        evs, env = sym_path(p_)
+        for (k, s_, v, _) in evs:
+            if k == 'stmt' and isinstance(s_, ast.Return):
+                outs.add(src(v.value))
+    ok = outs == {'self.get_alias() or self.get_real_name()'}
+    rets = [n for n in own_nodes(f.node) if isinstance(n, ast.Return)]
+    ctx.ob('R12.6', 'get_name', f'{f.mod.relpath}:{f.node.lineno}', 'get_name is the alias if present, else the real name', ok, f'{src(rets[0].value) if rets else None}')
+    f = repo.func('sqlparse.sql.TokenList.has_alias')
+    outs = set()
+    for p_ in enum_paths(f.node.body):
+        evs, env = sym_path(p_)
+        for (k, s_, v, _) in evs:
+            if k == 'stmt' and isinstance(s_, ast.Return):
+                outs.add(src(v.value))
+    rets = [n for n in own_nodes(f.node) if isinstance(n, ast.Return)]
+    ok = outs == {'self.get_alias() is not None'} or outs == {'not self.get_alias() is None'}
+    ctx.ob('R12.6', 'has_alias', f'{f.mod.relpath}:{f.node.lineno}', 'has_alias is "get_alias() is not None"', ok, f'{src(rets[0].value) if rets else None}')
+    # _get_first_name: slice from idx, reversed iff reverse, quotes removed, keywords only when asked
+    f = repo.func('sqlparse.sql.TokenList._get_first_name')
+    t = src(f.node)
+    rq = [n for n in own_nodes(f.node) if isinstance(n, ast.Call) and is_name(n.func, 'remove_quotes')]
+    gd = Guards(f.node)
+    kwapp = [n for n in own_nodes(f.node) if isinstance(n, ast.Call) and isinstance(n.func, ast.Attribute) and n.func.attr == 'append'
+             and folder.try_eval(n.args[0], f.mod) == KW]
+    ok = len(rq) == 1 and kwapp and all(('keywords', True) in [a for a in gd.facts(n) if a[0] != '|'] for n in kwapp)
+    ctx.ob('R12.6', '_get_first_name:keywords-only-on-request', f'{f.mod.relpath}:{f.node.lineno}',
+           'keywords count as names only when the caller asks (alias after AS); the returned value has its quotes removed', bool(ok), '')
